@@ -12,7 +12,8 @@ use serde_json::{json, Value};
 use std::collections::BTreeMap;
 use std::io::{Cursor, Read};
 use std::panic::{catch_unwind, AssertUnwindSafe};
-use std::sync::Arc;
+use std::sync::atomic::{AtomicU64, Ordering};
+use std::sync::{Arc, Mutex};
 use vh::out::*;
 use vh::rng::Rng;
 use vibesql_storage::btree::BTreeIndex;
@@ -973,23 +974,49 @@ fn main() {
         }
         None => (0..ncases).collect(),
     };
-    // run the cases on a few threads (each case has its own file and its own random stream)
+    // run the cases on a few threads (each case has its own file and its own random stream); the
+    // workers are detached so that a case that never returns (e.g. a cycle in the leaf chain) can be
+    // reported instead of hanging the check
     let nthreads = 8usize;
     let chunks: Vec<Vec<u64>> = (0..nthreads).map(|t| wanted.iter().copied().filter(|i| (*i as usize) % nthreads == t).collect()).collect();
-    let mut results: Vec<CaseOut> = Vec::new();
-    std::thread::scope(|s| {
-        let mut hs = Vec::new();
-        for ch in &chunks {
-            let storage = storage.clone();
-            let probes = &probes;
-            let seed = args.seed;
-            let thorough = args.thorough;
-            hs.push(s.spawn(move || ch.iter().map(|i| run_case(*i, seed, thorough, &storage, probes)).collect::<Vec<_>>()));
+    let probes = Arc::new(probes);
+    let done: Arc<Mutex<Vec<CaseOut>>> = Arc::new(Mutex::new(Vec::new()));
+    let state: Arc<Vec<(AtomicU64, AtomicU64)>> = Arc::new((0..nthreads).map(|_| (AtomicU64::new(0), AtomicU64::new(0))).collect());
+    let finished = Arc::new(AtomicU64::new(0));
+    let t0 = std::time::Instant::now();
+    for (t, ch) in chunks.into_iter().enumerate() {
+        let (storage, probes, done, state, finished) = (storage.clone(), probes.clone(), done.clone(), state.clone(), finished.clone());
+        let (seed, thorough) = (args.seed, args.thorough);
+        std::thread::spawn(move || {
+            for i in ch {
+                state[t].1.store(t0.elapsed().as_millis() as u64, Ordering::SeqCst);
+                state[t].0.store(i + 1, Ordering::SeqCst);
+                let c = run_case(i, seed, thorough, &storage, &probes);
+                state[t].0.store(0, Ordering::SeqCst);
+                done.lock().unwrap().push(c);
+            }
+            finished.fetch_add(1, Ordering::SeqCst);
+        });
+    }
+    let limit_ms: u64 = 90_000;
+    let mut hung: Vec<u64> = Vec::new();
+    while finished.load(Ordering::SeqCst) < nthreads as u64 {
+        std::thread::sleep(std::time::Duration::from_millis(100));
+        let now = t0.elapsed().as_millis() as u64;
+        for st in state.iter() {
+            let cur = st.0.load(Ordering::SeqCst);
+            if cur != 0 && now.saturating_sub(st.1.load(Ordering::SeqCst)) > limit_ms {
+                hung.push(cur - 1);
+            }
         }
-        for h in hs {
-            results.extend(h.join().expect("worker"));
+        if !hung.is_empty() {
+            break;
         }
-    });
+    }
+    let mut results: Vec<CaseOut> = std::mem::take(&mut *done.lock().unwrap());
+    for i in &hung {
+        sum.finding("operation-does-not-terminate", i * 10, format!("case {} did not finish within {} s (an operation of the index loops; replay with --only {})", i, limit_ms / 1000, i * 10), json!({"case": i}));
+    }
     results.sort_by_key(|c| c.idx);
     let per_shard = (ncases + nshards - 1) / nshards;
     let mut shard_txt: BTreeMap<u64, Vec<String>> = BTreeMap::new();
@@ -1024,6 +1051,10 @@ fn main() {
             write_shard(&args, *k as usize, &s);
         }
     }
-    let _ = std::fs::remove_dir_all(&tmp);
     sum.write(&args);
+    if !hung.is_empty() {
+        // worker threads are still inside the index: leave without joining them
+        std::process::exit(0);
+    }
+    let _ = std::fs::remove_dir_all(&tmp);
 }
